@@ -65,6 +65,9 @@ var witnesses = []witness{
 	{name: "filter over a derived COUNT(*) of a table with a primary key: runaway recursion in the analyzer", fatal: true,
 		setup: []string{"CREATE TABLE pkt (id INT PRIMARY KEY, a INT)", "INSERT INTO pkt VALUES (1, 1), (2, NULL)"},
 		stmt:  "SELECT c0 FROM (SELECT COUNT(*) AS c0 FROM pkt) AS s2 WHERE c0 = 2"},
+	{name: "INTERVAL used as a value", stmt: "SELECT INTERVAL 'a' b > 1 JSON"},
+	{name: "CREATE EVENT with a NULL interval", stmt: "CREATE EVENT ev ON SCHEDULE EVERY NULL DAY DO SELECT 1"},
+	{name: "DISTINCT inside a scalar function call", stmt: "SELECT DATEDIFF(DISTINCT '2400-01-01', '2000-01-01')"},
 	{name: "C52 wkb line string announcing more points than it carries", stmt: "SELECT ST_GeomFromWKB(x'0102000000030000000000000000000000000000000000000000000000000000000000000000000000')"},
 }
 
